@@ -19,9 +19,9 @@
 (*   ISelect      the select statement of RunZMQ                            *)
 (*   IDrop        Warnln("ingest full ...") returned; addDroppedZMQMessage  *)
 (*   Reset        ZMQIngester.Reset (two atomic stores)                     *)
-(*   PLoadZ/PLoadD/PLoadT/PPrint/PStore  PrintAndReset: the loads of the    *)
-(*                three printed counters (argument evaluation order), the   *)
-(*                logger call, the final Reset()                            *)
+(*   PLen/PLoadZ/PLoadD/PLoadT/PPrint/PStore  PrintAndReset: len(regChan),  *)
+(*                the loads of the three printed counters (argument         *)
+(*                evaluation order), the logger call, the final Reset()     *)
 (* Environment: Start (RunZMQ called and every subscription established),  *)
 (*   Publish(u) (upstream u publishes its next message), Consume (the       *)
 (*   reader of regChan takes one message), Cancel (ctx cancelled).          *)
@@ -83,7 +83,7 @@ Init == /\ started = FALSE /\ cancelled = FALSE /\ prox = "none" /\ dl = FALSE
         /\ inq = [u \in Ups |-> <<>>] /\ hand = [u \in Ups |-> None] /\ mcur = None /\ outq = <<>>
         /\ ipc = "none" /\ cur = None /\ chanq = <<>> /\ deliv = [u \in Ups |-> 0]
         /\ zmq = 0 /\ drp = 0 /\ tot = 0
-        /\ spc = "idle" /\ snap = [zmq |-> 0, drp |-> 0, tot |-> 0] /\ epochs = 0
+        /\ spc = "idle" /\ snap = [len |-> 0, zmq |-> 0, drp |-> 0, tot |-> 0] /\ epochs = 0
         /\ rcv = [u \in Ups |-> 0] /\ recvd = 0 /\ fwd = 0 /\ dropAll = 0 /\ disc = 0
         /\ rep = Zero2 /\ gone = Zero2
         /\ obs = [a |-> "Init"]
@@ -198,12 +198,19 @@ Reset ==
   /\ UNCHANGED <<lvars, pvars, ivars, tot, spc, snap, rcv, recvd, fwd, dropAll, disc, rep>>
   /\ obs' = [a |-> "Reset", st |-> Proj]
 
-PLoadZ ==
+\* PrintAndReset called: l := len(zi.regChan)
+PLen ==
   /\ spc = "idle" /\ epochs < MaxEpochs
-  /\ spc' = "z" /\ epochs' = epochs + 1
+  /\ spc' = "l" /\ epochs' = epochs + 1
+  /\ snap' = [snap EXCEPT !.len = Len(chanq)]
+  /\ UNCHANGED <<lvars, pvars, ivars, cvars, gvars>>
+  /\ obs' = [a |-> "PLen", st |-> Proj]
+
+PLoadZ ==
+  /\ spc = "l" /\ spc' = "z"
   /\ snap' = [snap EXCEPT !.zmq = zmq]
   /\ zmq' = IF StatsMode = "swap" THEN 0 ELSE zmq
-  /\ UNCHANGED <<lvars, pvars, ivars, drp, tot, gvars>>
+  /\ UNCHANGED <<lvars, pvars, ivars, drp, tot, epochs, gvars>>
   /\ obs' = [a |-> "PLoadZ", st |-> Proj]
 
 PLoadD ==
@@ -224,7 +231,7 @@ PPrint ==
   /\ spc = "t" /\ spc' = "p"
   /\ rep' = [zmq |-> rep.zmq + snap.zmq, drp |-> rep.drp + snap.drp]
   /\ UNCHANGED <<lvars, pvars, ivars, cvars, snap, epochs, rcv, recvd, fwd, dropAll, disc, gone>>
-  /\ obs' = [a |-> "PPrint", zmq |-> snap.zmq, drp |-> snap.drp, tot |-> snap.tot, len |-> Len(chanq), st |-> Proj]
+  /\ obs' = [a |-> "PPrint", zmq |-> snap.zmq, drp |-> snap.drp, tot |-> snap.tot, len |-> snap.len, st |-> Proj]
 
 PStore ==
   /\ spc = "p" /\ spc' = "idle"
@@ -237,11 +244,11 @@ PStore ==
 \* steps the code takes by itself (no driver involvement)
 Auto == \/ \E u \in Ups : SubRecv(u) \/ ProxyTake(u)
         \/ ProxySend \/ ProxyStop \/ IRecv \/ ISelect
-        \/ PLoadD \/ PLoadT \/ PPrint
+        \/ PLoadZ \/ PLoadD \/ PLoadT \/ PPrint
 \* steps a driver decides: the environment, and the two places where the real code calls out into a logger the
 \* driver owns (Warnln before the drop is counted; the stats line before Reset())
 Env == \/ Start \/ Cancel \/ Consume \/ \E u \in Ups : Publish(u)
-       \/ Reset \/ PLoadZ \/ PStore \/ IDrop
+       \/ Reset \/ PLen \/ PStore \/ IDrop
 
 Next == Auto \/ Env
 
@@ -254,7 +261,7 @@ TypeOK ==
   /\ started \in BOOLEAN /\ cancelled \in BOOLEAN /\ dl \in BOOLEAN
   /\ prox \in {"none", "running", "stopped"}
   /\ ipc \in {"none", "recv", "select", "warn", "returned"}
-  /\ spc \in {"idle", "z", "d", "t", "p"}
+  /\ spc \in {"idle", "l", "z", "d", "t", "p"}
   /\ \A u \in Ups : sent[u] \in 0..MaxSend /\ base[u] <= sent[u] /\ Len(inq[u]) <= MaxSend
   /\ Len(chanq) <= ChanCap
   /\ (cur = None) = (ipc \notin {"select", "warn"})
